@@ -138,11 +138,14 @@ def check_sector(ops):
     mod = Model()
     c = Country(mod, 'C')
     s = Sector(c, 'S')
+    other = Sector(c, 'OTHER')
     flows, income = [], []
     defs = {}
     for op in ops:
         if op[0] == 'excl':
             mod.AddCashFlowIncomeExclusion(s, op[1])
+        elif op[0] == 'excl_other':          # an exclusion registered for ANOTHER sector must not apply here
+            mod.AddCashFlowIncomeExclusion(other, op[1])
         elif op[0] == 'var':
             s.AddVariable(op[1], 'd', op[2])
             defs[op[1]] = op[2]
@@ -188,8 +191,10 @@ def sector(tier, seed, **opts):
         ops = []
         for _ in range(rnd.randint(1, 6)):
             c = rnd.random()
-            if c < 0.15:
+            if c < 0.1:
                 ops.append(('excl', rnd.choice(['x', 'y', 'w', 'x*y'])))
+            elif c < 0.18:
+                ops.append(('excl_other', rnd.choice(['x', 'y', 'w'])))
             elif c < 0.3:
                 ops.append(('var', rnd.choice(['x', 'y', 'w']), rnd.choice(['', '0.0', 'z2', '2*z2'])))
             else:
